@@ -818,7 +818,7 @@ class C15(PropBase):
             for i, line, r in zip(idx, lines, res):
                 compared += 1
                 view = line.split("\t")[1]
-                mview, ok, mconf, wf, rconf, rwid, mpretty, pok, rcons = ((r or "").split("\t") + [""] * 9)[:9]
+                mview, ok, mconf, wf, rconf, rwid, mpretty, pok, rcons, roff = ((r or "").split("\t") + [""] * 10)[:10]
                 spi = self.split(answers[i])
                 # the pretty bytes the model must reproduce: print_json(pretty = true)'s own bytes whenever the view is the whole
                 # document (nothing removed), else the harness's to_string_pretty of the view
@@ -835,6 +835,9 @@ class C15(PropBase):
                 elif ok == "1" and rcons != "1":
                     what = ("self-consistency: the Gallina checker [consistent] (theorem c15_consistent: counts, frame numbers, missing_symbols, the crashing_thread "
                             "copy = the indexed thread + threads_index + registers in frame 0 only, num_records) rejects the real print_json document")
+                elif ok == "1" and roff != "1":
+                    what = ("module offsets: the Gallina checker [offsets_ok] (theorem c15_offsets_checker: a frame that names a module has module_offset = offset - base_addr "
+                            "of a module of that name in the modules array, as numbers) rejects the real print_json document")
                 elif mview != view:
                     what = "correspondence: the model's rendering of the modelled fields differs from print_json's"
                 elif mpretty != want_pretty:
@@ -845,6 +848,9 @@ class C15(PropBase):
                             "another value from it than from the compact output")
                 elif ok != "1":
                     what = "correspondence: the model's parser does not accept / reproduce the real view"
+                elif wf == "M":
+                    what = ("a frame's module is not a member of the state's module list (same basename and base): hypothesis [frames_in_modules] of theorem "
+                            "c15_offsets_checker does not hold on this real process state")
                 elif wf == "R":
                     what = ("the registers of the requesting thread's frame 0 are not taken from the register file of its raw context kind "
                             "(REGISTER_TABLES regenerated from minidump/src/context.rs; hypothesis of c15_register_tables): unknown name or digit count")
